@@ -182,24 +182,24 @@ class MarginRule(cssrule.CSSRule):
         ok, seq, store, unused = ProdParser().parse(cssText, 'MarginRule', prods)
 
         if ok:
-            # TODO: use seq for serializing instead of fixed stuff?
-            self._setSeq(seq)
-
-            if 'margin' in store:
-                # may raise:
-                self.margin = store['margin'].value
-            else:
+            if 'margin' not in store:
                 self._log.error(
                     'No margin @keyword for this %s rule' % self.margin,
                     error=xml.dom.InvalidModificationErr,
                 )
+                return
 
-            # new empty style
-            self.style = CSSStyleDeclaration(parentRule=self)
-
+            # new style, nothing of this rule is changed if it is invalid
+            newStyle = CSSStyleDeclaration(parentRule=self)
             if 'styletokens' in store:
                 # may raise:
-                self.style.cssText = store['styletokens']
+                newStyle.cssText = store['styletokens']
+
+            # TODO: use seq for serializing instead of fixed stuff?
+            self._setSeq(seq)
+            # may raise:
+            self.margin = store['margin'].value
+            self.style = newStyle
 
     cssText = property(
         fget=_getCssText,
